@@ -58,6 +58,20 @@ def convShapeOf (c : Conv) : Option ConvShape :=
 theorem gen_conv (c : Conv) : (convShapeOf c).isSome = true := by
   cases c <;> decide
 
+/-- `__getitem__` subscripts the wrapped value (result wrapped or not: both are transparent). -/
+theorem gen_getitem : ∃ w u, proxyClass.entry .getitem = some (.plan ⟨.subscript, none, false, w, u⟩) := by
+  first
+    | exact ⟨true, false, by decide⟩
+    | exact ⟨false, false, by decide⟩
+    | exact ⟨true, true, by decide⟩
+    | exact ⟨false, true, by decide⟩
+
+/-- `__contains__` evaluates `item in value` (needle unwrapped or not). -/
+theorem gen_contains : ∃ u, proxyClass.entry .contains = some (.plan ⟨.isIn, none, false, false, u⟩) := by
+  first
+    | exact ⟨true, by decide⟩
+    | exact ⟨false, by decide⟩
+
 /-! ## Families -/
 
 /-- Binary arithmetic / bitwise / shift operators, proxy as left operand or both operands. -/
@@ -165,8 +179,10 @@ theorem c16_container (T : TypeTable) :
     (∀ c k, Stable T ⟨.contains, none, some .truth⟩ (containsOp T c k) →
         Transparent (containsOp T c k) (outerContains T proxyClass (.proxy c) k)) := by
   refine ⟨fun c v _ hok => conv_transparent T c v hok, fun c k => ?_, fun c k hst => ?_⟩
-  · exact outerGetitem_subscript T proxyClass c k true false (by decide)
-  · exact outerContains_isIn T proxyClass c k true (by decide) hst
+  · obtain ⟨w, u, h⟩ := gen_getitem
+    exact outerGetitem_subscript T proxyClass c k w u h
+  · obtain ⟨u, h⟩ := gen_contains
+    exact outerContains_isIn T proxyClass c k u h hst
 
 /-- `isinstance(proxy, C)` answers as for the wrapped value, for every class C that SandboxResult itself does
 not derive from. -/
